@@ -65,6 +65,15 @@ class C01(core.Check):
                 sess = engcorr.gen_session(rng, max_n=120, vol=rng.choice([8, 16]), kinds=('futures',), isolated=True,
                                            leverage=rng.choice([50, 100, 125]), force={'kind': 'market'})
                 res.count('pairs-with-isolated-high-leverage')
+            elif rng.random() < 0.5:
+                # the normal simulator with every route above 1m, gapped minutes and orders resting close to the price: a
+                # fill in the middle of a trading candle must not depend on how that trading candle goes on (the cut
+                # falls inside a trading candle; one tail comes back to the gap, the shifted one does not)
+                sess = engcorr.gen_session(rng, max_n=120, tight=True, vol=rng.choice([1, 1, 2]), fast=False,
+                                           tfs=('3m', '5m', '15m'), data=rng.random() < 0.3, allow_two=False,
+                                           gap_prob=0.5)
+                sess['gapped_family'] = True
+                res.count('pairs-step-no-1m-route-gapped')
             else:
                 sess = engcorr.gen_session(rng, max_n=120, tight=rng.random() < 0.4, vol=rng.choice([4, 8]), watch=rng.random() < 0.25)
             if rng.random() < 0.35:
@@ -78,6 +87,34 @@ class C01(core.Check):
                 continue
             cut = rng.randrange(1, max(2, n // unit)) * unit
             cut = min(max(cut, unit), n - 1)
+            sess.pop('tail_back', None)
+            if sess.get('gapped_family'):
+                # cut right after a minute that opened with a gap, inside a trading candle; the other tail crosses the gap back
+                arr0 = cands[sess['syms'][0]]
+                w0 = sess.get('warmup', 0)
+                gaps = [i for i in range(2, n - 1) if (i + 1) % min(tfs) != 0
+                        and abs(float(arr0[w0 + i][1]) - float(arr0[w0 + i - 1][2])) >= 0.25]
+                # prefer a gap that holds a resting order: one scouting run tells which orders are active when
+                _, tr0, err0 = engcorr.run_real(sess, cands)
+                t00 = int(arr0[0][0])
+                held = []
+                for i in gaps:
+                    ti = t00 + (w0 + i) * M
+                    pc, op = float(arr0[w0 + i - 1][2]), float(arr0[w0 + i][1])
+                    for o in engoracles.order_table(tr0).values():
+                        lo_i, hi_i = float(arr0[w0 + i][4]), float(arr0[w0 + i][3])
+                        if o['type'] != 'MARKET' and min(pc, op) < float(o['price']) < max(pc, op) and o['submitted'] <= ti \
+                                and not lo_i <= float(o['price']) <= hi_i \
+                                and (o['filled'] is None or o['filled'] >= ti) and (o['cancelled'] is None or o['cancelled'] >= ti):
+                            held.append(i)
+                            break
+                if held:
+                    gaps = held
+                    res.count('pairs-cut-after-gap-holding-an-order')
+                if gaps:
+                    cut = rng.choice(gaps) + 1
+                    sess['tail_back'] = True
+                    res.count('pairs-cut-after-gap')
             ev1, ev2, tr1, tr2 = engoracles.c01_compare(sess, cands, cut, rng)
             t_cut = int(cands[sess['syms'][0]][0][0]) + (cut + sess.get('warmup', 0)) * M
             a = engoracles.events_before(tr1, ev1, t_cut)
